@@ -74,7 +74,8 @@ def run(tier, seed, replay=None):
             if len(d["idx"]) >= 2 or any(not s["parsable"] for s in d["states"]) or any(not x["complete"] for x in d["idx"]):
                 nontriv.add(canon(d))
             got = ev["recovered_names"]
-            got = {"idx": got["idx"], "tags": sorted(got["tags"], key=lambda t: t["name"])}
+            got = {"idx": got["idx"], "tags": sorted(got["tags"], key=lambda t: t["name"]),
+                   "next": got.get("next"), "view": got.get("view")}
             if canon(got) != canon(out):
                 diffs.append({"case": sc.name, "disk": d, "impl": got, "model": out, "cut": ev.get("cut")})
     if diffs and not rep.violations:
